@@ -5,3 +5,4 @@ import NTV.Proofs.C13
 #print axioms NTV.C13.false_means_not_prime
 #print axioms NTV.C13.prime_passes_all_bases
 #print axioms NTV.C13.modpow_spec
+#print axioms NTV.C13.composite_has_witness
